@@ -966,11 +966,12 @@ spif_dlinked_list_reverse(spif_dlinked_list_t self)
     spif_dlinked_list_item_t current, tmp;
 
     ASSERT_RVAL(!SPIF_LIST_ISNULL(self), FALSE);
-    for (current = self->head; current; ) {
+    for (current = self->head, tmp = (spif_dlinked_list_item_t) NULL; current; ) {
         tmp = current;
         current = current->next;
         SWAP(tmp->prev, tmp->next);
     }
+    self->tail = self->head;
     self->head = tmp;
     return TRUE;
 }
